@@ -138,10 +138,12 @@ def gen_functional(g, tier):
         su[which] += 1
         unit = [[[F(1) if udtype != "same" else F(1, 2)] * su[2] for _ in range(su[1])] for _ in range(su[0])]
     tv = g.chance(0.2) and not final
-    return dict(kind="functional", dtype=dtype, udtype=udtype, ss=[N, H, T], su=su, spot=spot, unit=unit, cost=cost,
+    # the cost rates travel in a list (as documented) or in a tuple (the same sequence of rates)
+    cseq = g.weighted([("list", 5), ("tuple", 1)]) if cost is not None else "list"
+    return dict(kind="functional", dtype=dtype, udtype=udtype, ss=[N, H, T], su=su, spot=spot, unit=unit, cost=cost, cseq=cseq,
                 payoff=payoff, pdim=pdim, first=first, final=final, tv=tv,
                 tags=dict(cost=ckind, payoff=pkind, shape=skind, sign=sign, const_spot=const_spot, neg_spot=neg_spot,
-                          udtype=udtype))
+                          udtype=udtype, cseq=cseq))
 
 
 def to_req(c):
@@ -164,6 +166,8 @@ def run_impl_functional(torch, c):
         unit = torch.tensor([[[int(x) for x in r] for r in p] for p in c["unit"]],
                             dtype=getattr(torch, c["udtype"])).reshape(c["su"])
     cost = None if c["cost"] is None else [float(x) for x in c["cost"]]
+    if cost is not None and c.get("cseq") == "tuple":
+        cost = tuple(cost)
     payoff = None
     if c["payoff"] is not None:
         payoff = torch.tensor([float(x) for x in c["payoff"]], dtype=dt)
@@ -198,7 +202,31 @@ MULTI_CORPUS = [("option", "linear", 2), ("spread", "linear", 2), ("option", "pr
                 ("option", "naked", 3), ("spread", "relu", 2), ("option", "relu", 3), ("spread", "naked", 2)]
 
 
-def gen_hedger(g, tier, force=None):
+# how the caller hands the hedging instruments over (`hedge=`): the library only measures, indexes and iterates the collection (several
+# times), so every sequence of instruments is the same hedge as the list of them: a tuple, an instance of a sub-class of list, a
+# user-defined sequence (collections.UserList).  (A generator is NOT such a collection: it can be neither indexed nor iterated twice.)
+SEQ_KINDS = ["tuple", "list_subclass", "userlist"]
+# deterministic corpus (every tier, every seed) of the class "hedging instruments handed over in a sequence that is not a list":
+# (sequence kind, model, number of hedging instruments); everything else of such a scenario is drawn as usual
+SEQ_CORPUS = [("tuple", "linear", 2), ("tuple", "prev", 1), ("tuple", "relu", 3), ("tuple", "naked", 1), ("list_subclass", "linear", 2),
+              ("userlist", "prev", 2), ("tuple", "prev", 2), ("userlist", "linear", 1)]
+
+
+def as_sequence(kind, instruments):
+    """the hedging instruments in the kind of collection the caller uses"""
+    if kind == "tuple":
+        return tuple(instruments)
+    if kind == "list_subclass":
+        class Book(list):
+            """user-defined: a list of instruments"""
+        return Book(instruments)
+    if kind == "userlist":
+        import collections
+        return collections.UserList(instruments)
+    return list(instruments)
+
+
+def gen_hedger(g, tier, force=None, force_seq=None):
     N = g.small((1, 2, 3, 5))
     T = g.small((2, 2, 3, 4, 5, 6))
     nh = g.small((1, 1, 2, 2, 3, 4, 6)) if tier == "thorough" else g.small((1, 1, 2, 3))
@@ -211,6 +239,8 @@ def gen_hedger(g, tier, force=None):
     multi = None
     if force is not None:
         multi, model, nh = force
+    elif force_seq is not None:
+        _, model, nh = force_seq
     elif g.chance(0.2):
         multi, nh = g.choice(["option", "spread"]), g.choice([2, 2, 3])
     hedges = []
@@ -233,7 +263,7 @@ def gen_hedger(g, tier, force=None):
     # ('underlier_spot'; 'spot' of a derivative listed at its underlier's price) and the module returns its input object
     # (Identity / an empty Sequential): "hold as many shares as the price".  One feature -> one hedging instrument.
     view, passthru = None, None
-    if not multi and g.chance(0.12):
+    if not multi and force_seq is None and g.chance(0.12):
         model = "identity"
         view = g.choice(["underlier_spot", "underlier_spot", "spot"])
         passthru = g.choice(["Identity", "Sequential()"])
@@ -257,14 +287,18 @@ def gen_hedger(g, tier, force=None):
             hedges[g.randint(1, nh - 1)]["cost"] = F(g.choice([2, 8, -4, 32]), 256) + hedges[0]["cost"]
         if multi == "spread":
             deriv, strike = "spread", g.choice([F(0), F(1, 2), F(-1, 2), F(1)])
-    elif nh == 1 and g.chance(0.3):
+    elif nh == 1 and force_seq is None and g.chance(0.3):
         call = "default"
+    # the kind of collection an explicit hedge is handed over in (see SEQ_KINDS)
+    seq = "list"
+    if call == "explicit":
+        seq = force_seq[0] if force_seq is not None else g.weighted([("list", 6), ("tuple", 3), ("list_subclass", 1), ("userlist", 1)])
     csign = "none" if all(h["cost"] == 0 for h in hedges) else "pos" if all(h["cost"] >= 0 for h in hedges) else \
         "rebate" if all(h["cost"] <= 0 for h in hedges) else "mixedsign"
     return dict(kind="hedger", N=N, T=T, hedges=hedges, model=model, strike=strike, w=w, b=b,
-                deriv=deriv, clause=clause, first=True, view=view, passthru=passthru, order=order, multi=multi, call=call, reg=reg,
+                deriv=deriv, clause=clause, first=True, view=view, passthru=passthru, order=order, multi=multi, call=call, reg=reg, seq=seq,
                 feat0="underlier_spot" if multi == "spread" else "moneyness",
-                tags=dict(model=model, nh=nh, deriv=deriv, order=order, view=view, cost=csign, multi=multi, call=call))
+                tags=dict(model=model, nh=nh, deriv=deriv, order=order, view=view, cost=csign, multi=multi, call=call, seq=seq))
 
 
 def build_hedger_case(torch, c):
@@ -478,18 +512,32 @@ def run_hedger_case(torch, ctx, c, which):
                 elif h["kind"] == "listed":
                     hedge[i].ul().register_buffer("spot", t_)
         # hedge=None ("use derivative.underliers"): nothing but the derivative is handed over
-        args = (deriv,) if c.get("call") == "default" else (deriv, hedge)
+        # an explicit hedge travels in the kind of collection of the scenario (list / tuple / sub-class of list / user-defined sequence)
+        seq = c.get("seq", "list")
+        args = (deriv,) if c.get("call") == "default" else (deriv, as_sequence(seq, hedge))
+
+        def the_hedge():
+            if seq == "list" or c.get("call") == "default":
+                return hedger.compute_hedge(*args)
+            # the same instruments in another kind of sequence: the hedge must exist and be the hedge of the list of them
+            stq, uq, _ = call_impl(hedger.compute_hedge, *args)
+            ul = hedger.compute_hedge(deriv, list(hedge))
+            if stq != "ok" or tuple(uq.shape) != tuple(ul.shape) or not torch.equal(uq, ul):
+                ctx.fail(f"Hedger.compute_hedge(derivative, hedge) with the hedging instruments handed over as a {seq} is not the hedge of the list of the same "
+                         "instruments (one row per instrument)", _small_h(c, which) | {"round": rnd}, key="hedger.compute_hedge:hedge-as-" + seq,
+                         detail={"sequence": uq.tolist() if stq == "ok" else uq, "list": ul.tolist()})
+            return ul
         with torch.no_grad():
             fn = hedger.compute_pl if which == "pl" else hedger.compute_portfolio
             if c.get("order", "hedge_first") == "hedge_first":
-                unit = hedger.compute_hedge(*args)
+                unit = the_hedge()
                 seen = torch.stack([h.spot for h in hedge], dim=1)
                 payoff = deriv.payoff()
                 st, v, mut = call_impl(fn, *args, watch=watch)
             else:
                 payoff = deriv.payoff()
                 st, v, mut = call_impl(fn, *args, watch=watch)
-                unit = hedger.compute_hedge(*args)
+                unit = the_hedge()
                 seen = torch.stack([h.spot for h in hedge], dim=1)
         if mut:
             ctx.mutated(f"Hedger.compute_{which}", mut, c)
@@ -597,6 +645,103 @@ def nondyadic_cost_rates(ctx, torch, g):
                 break
 
 
+def hedge_sequence_entry_points(ctx, torch, g):
+    """Every entry point of the Hedger that takes `hedge=` (compute_hedge, compute_portfolio, compute_pl, compute_pnl, compute_loss, price,
+    fit), on a SIMULATED market (the docstring set-up: the derivative's stock and options on it listed through a closed formula), with the
+    hedging instruments handed over as a tuple / an instance of a sub-class of list / a user-defined sequence.  Predicates: the call
+    succeeds; compute_pl / compute_portfolio / compute_pnl are the wealth identity (exact Fractions of the float64 prices, the hedge of
+    the LIST of the instruments, their cost rates, the payoff; 1e-13 of the sum of the absolute terms for the float64 summation); every
+    entry point returns bit for bit what it returns for the list of the same instruments from the same torch seed and the same
+    parameters (the library only measures, indexes and iterates the collection, so the computation is the same one)."""
+    import copy
+    from pfhedge.instruments import BrownianStock, EuropeanOption, LookbackOption
+    from pfhedge.nn import Hedger
+    ENTRY = ["compute_hedge", "compute_portfolio", "compute_pl", "compute_pnl", "compute_loss", "price", "fit"]
+    corpus = [("tuple", 2, "linear"), ("tuple", 1, "prev"), ("list_subclass", 2, "prev"), ("userlist", 3, "linear"), ("tuple", 3, "prev"),
+              ("userlist", 1, "linear")]
+    n_random = 4 if ctx.tier == "quick" else 40
+    for it in range(len(corpus) + n_random):
+        seq, nh, mkind = corpus[it] if it < len(corpus) else (g.choice(SEQ_KINDS + ["tuple"]), g.choice([1, 2, 3]), g.choice(["linear", "prev"]))
+        N, steps = g.choice([2, 3, 5]), g.choice([2, 3, 5])
+        costs = [F(g.choice([0, 1, 2, 8, -4]), 256) for _ in range(nh)]
+        quotes = [(g.choice([F(1, 2), F(1), F(2)]), g.choice([F(0), F(1, 4), F(-1, 4)]), g.choice([F(0), F(1, 2)])) for _ in range(nh - 1)]
+        dkind = g.choice(["european", "lookback"])
+        nin = 2 + (nh if mkind == "prev" else 0)
+        w = [[g.choice([F(-1), F(-1, 2), F(1, 2), F(1), F(1, 4)]) for _ in range(nin)] for _ in range(nh)]
+        b = [g.choice([F(0), F(1, 2), F(-1, 4)]) for _ in range(nh)]
+        seed = g.randint(0, 10 ** 6)
+        stock = BrownianStock(cost=float(costs[0]), dtype=torch.float64)
+        deriv = (EuropeanOption if dkind == "european" else LookbackOption)(stock, maturity=steps * stock.dt)
+        instruments = [stock]
+        for (a, b0, q), cst in zip(quotes, costs[1:]):
+            o = EuropeanOption(stock, strike=1.0, maturity=steps * stock.dt)
+            # listed through a closed formula of the stock's current price
+            o.list(lambda d, a=float(a), b0=float(b0), q=float(q): d.ul().spot * a + b0 + q * (d.ul().spot - 1.0) ** 2, cost=float(cst))
+            instruments.append(o)
+        lin = torch.nn.Linear(nin, nh, dtype=torch.float64)
+        with torch.no_grad():
+            lin.weight.copy_(torch.tensor([[float(x) for x in r] for r in w], dtype=torch.float64))
+            lin.bias.copy_(torch.tensor([float(x) for x in b], dtype=torch.float64))
+        hedger = Hedger(lin, ["moneyness", "time_to_maturity"] + (["prev_hedge"] if mkind == "prev" else []))
+        state0 = copy.deepcopy(hedger.state_dict())
+        case = {"hedge_argument": seq + " of the instruments", "instruments": ["the derivative's stock"] + [f"option on it listed at {rat_str(a)} S + {rat_str(b0)} + {rat_str(q)} (S - 1)^2" for a, b0, q in quotes],
+                "cost": enc_rat(costs), "derivative": dkind, "n_paths": N, "steps": steps, "inputs": str(hedger.inputs), "w": enc_rat(w), "b": enc_rat(b), "torch_seed": seed}
+        ctx.case(case, True, tag="hedge_sequence_entry_points")
+        ctx.stats[f"h:entry-points seq={seq}"] += 1
+
+        def run(entry, hedge):
+            """one entry point from the same torch seed and the same parameters"""
+            hedger.load_state_dict(state0)
+            torch.manual_seed(seed)
+            if entry in ("compute_hedge", "compute_portfolio", "compute_pl"):
+                deriv.simulate(n_paths=N)
+                with torch.no_grad():
+                    return call_impl(getattr(hedger, entry), deriv, hedge)[:2]
+            if entry == "compute_pnl":
+                with torch.no_grad():
+                    return call_impl(hedger.compute_pnl, deriv, hedge, n_paths=N)[:2]
+            if entry == "fit":
+                st, v, _ = call_impl(hedger.fit, deriv, hedge, n_epochs=2, n_paths=N, n_times=1, verbose=False)
+                if st == "ok":
+                    v = torch.tensor(list(v) + [x for p_ in hedger.parameters() for x in p_.detach().reshape(-1).tolist()], dtype=torch.float64)
+                return st, v
+            return call_impl(getattr(hedger, entry), deriv, hedge, n_paths=N, n_times=2, enable_grad=False)[:2]
+        for entry in ENTRY:
+            st_l, v_l = run(entry, list(instruments))
+            if st_l != "ok":
+                ctx.fail(f"Hedger.{entry} raised on a simulated market hedged with the derivative's stock and listed options on it", case | {"entry": entry, "hedge_argument": "list"},
+                         key=f"hedger.{entry}:error:simulated-market", detail=v_l)
+                continue
+            st_s, v_s = run(entry, as_sequence(seq, instruments))
+            if st_s != "ok":
+                ctx.fail(f"Hedger.{entry} raises when the hedging instruments are handed over as a {seq} (it works for the list of the same instruments)", case | {"entry": entry},
+                         key=f"hedger.{entry}:error:hedge-as-{seq}", detail=v_s)
+                continue
+            if entry in ("compute_portfolio", "compute_pl", "compute_pnl"):
+                # the market left by the call (same seed: the market of the list run as well); the hedge of the LIST of the instruments
+                with torch.no_grad():
+                    hedger.load_state_dict(state0)
+                    un = tensor_to_fracs(hedger.compute_hedge(deriv, list(instruments)))
+                    sp = tensor_to_fracs(torch.stack([h.spot for h in instruments], dim=1))
+                    pf = None if entry == "compute_portfolio" else tensor_to_fracs(deriv.payoff())
+                got = tensor_to_fracs(v_s) if tuple(v_s.shape) == (N,) else None
+                for n in range(N if got is not None else 0):
+                    exp = wealth(sp[n], un[n], costs, pf[n] if pf is not None else None, True)
+                    scale = sum(abs(t_) for t_ in terms_for_guard(sp[n], un[n], costs)) + (abs(pf[n]) if pf is not None else 0) + 1
+                    if not isinstance(got[n], F) or abs(got[n] - exp) > F(1, 10 ** 13) * scale:
+                        got = None
+                        break
+                if got is None:
+                    ctx.fail(f"Hedger.{entry} with the hedging instruments handed over as a {seq} differs from the wealth identity on those instruments' current prices, "
+                             "the hedge computed for them, their cost rates and the payoff", case | {"entry": entry}, key=f"hedger.{entry}:value:hedge-as-{seq}",
+                             detail={"impl": v_s.tolist(), "prices": enc_rat(sp), "hedge": enc_rat(un)})
+                    continue
+            if tuple(v_s.shape) != tuple(v_l.shape) or not (torch.equal(v_s, v_l) or bool(((v_s == v_l) | (v_s.isnan() & v_l.isnan())).all())):
+                ctx.fail(f"Hedger.{entry} returns something else for a {seq} of hedging instruments than for the list of the same instruments (same torch seed, same parameters"
+                         + (": the validation history and the fitted parameters" if entry == "fit" else "") + ")", case | {"entry": entry},
+                         key=f"hedger.{entry}:hedge-as-{seq}:differs-from-list", detail={"sequence": v_s.tolist(), "list": v_l.tolist()})
+
+
 def check(ctx):
     torch, pfhedge = import_impl()
     g = ctx.gen
@@ -629,6 +774,8 @@ def check(ctx):
         small = {k: (to_req(c)[k] if k in to_req(c) else c[k]) for k in
                  ("ss", "su", "spot", "unit", "cost", "payoff", "first", "final", "tv")}
         small["dtype"] = c["dtype"]
+        if c["cseq"] != "list":
+            small["cost_argument"] = c["cseq"] + " of the rates"
         if c["udtype"] != "same":
             small["unit_dtype"] = c["udtype"]
         ctx.case(small, nontrivial, tag="functional")
@@ -667,12 +814,15 @@ def check(ctx):
                     ctx.fail("functional.pl differs from the self-financing wealth identity when the positions are an integer-dtype tensor (whole shares)",
                              small, key="functional.pl:value:int-unit",
                              detail={"impl": enc_rat(ri[1]), "wealth": enc_rat(exp), "unit_dtype": c["udtype"]})
+                elif c["cseq"] != "list":
+                    ctx.fail("functional.pl differs from the self-financing wealth identity when the cost rates are handed over as a tuple", small,
+                             key="functional.pl:value:cost-as-tuple", detail={"impl": enc_rat(ri[1]), "wealth": enc_rat(exp)})
                 else:
                     ctx.fail("functional.pl differs from the self-financing wealth identity", small,
                              key="functional.pl:value", detail={"impl": enc_rat(ri[1]), "wealth": enc_rat(exp)})
         elif wellshaped:
-            ctx.fail("functional.pl rejects a well-shaped input", small, key="functional.pl:error",
-                     detail={"impl": ri})
+            ctx.fail("functional.pl rejects a well-shaped input" + (" (the cost rates handed over as a tuple)" if c["cseq"] != "list" else ""), small,
+                     key="functional.pl:error" + (":cost-as-tuple" if c["cseq"] != "list" else ""), detail={"impl": ri})
         elif ri[0] == "ok" and not (c["tags"]["cost"] == "badlen"):
             ctx.fail("functional.pl accepts an input it documents as rejected", small,
                      key="functional.pl:accepts", detail={"impl": enc_rat(ri[1])})
@@ -680,8 +830,10 @@ def check(ctx):
     reqs, metas = [], []
     hreqs, hmetas = [], []     # whole-scenario requests for the composed model ("hedger_pl"), one per (scenario, round)
     for it in range(nhed):
-        c = gen_hedger(g, ctx.tier, force=MULTI_CORPUS[it] if it < len(MULTI_CORPUS) else None)
+        c = gen_hedger(g, ctx.tier, force=MULTI_CORPUS[it] if it < len(MULTI_CORPUS) else None,
+                       force_seq=SEQ_CORPUS[it - len(MULTI_CORPUS)] if len(MULTI_CORPUS) <= it < len(MULTI_CORPUS) + len(SEQ_CORPUS) else None)
         dflt = ":default-hedge" + (":multi-underlier" if c["multi"] else "") if c["call"] == "default" else ""
+        seqs = ":hedge-as-" + c["seq"] if c["seq"] != "list" else ""        # (only with an explicit hedge: dflt == "")
         hidx = {}
         for rnd, shift in enumerate((0, 1)):
             hidx[rnd] = len(hreqs)
@@ -695,8 +847,9 @@ def check(ctx):
                 continue
             except Exception as e:  # noqa
                 ctx.stats["hedger_build_error:" + canon_error(e)] += 1
-                ctx.fail(f"Hedger.compute_{which} raised on a well-formed market" + (" (hedge=None: the hedging instruments are the derivative's underliers)" if dflt else ""),
-                         _small_h(c, which), key=f"hedger.compute_{which}:raise" + dflt, detail=repr(e)[:300])
+                ctx.fail(f"Hedger.compute_{which} raised on a well-formed market" + (" (hedge=None: the hedging instruments are the derivative's underliers)" if dflt else "")
+                         + (f" (the hedging instruments handed over as a {c['seq']})" if seqs else ""),
+                         _small_h(c, which), key=f"hedger.compute_{which}:raise" + dflt + seqs, detail=repr(e)[:300])
                 continue
             for rnd, st, v, sp, un, cost, pf in rounds:
               hmetas.append((c, which, rnd, st, v, hidx[rnd], un, pf))
@@ -732,6 +885,12 @@ def check(ctx):
                                _small_h(c, which), key=f"hedger.compute_{which}:value:passthrough-view-input",
                                detail={"impl": enc_rat(v), "wealth": enc_rat(exp), "cost": enc_rat(cost), "round": rnd,
                                        "hedge": enc_rat(un), "prices": enc_rat(sp)})
+                  elif v != exp and seqs:
+                      ctx.fail(f"Hedger.compute_{which} with the hedging instruments handed over as a {c['seq']} differs from the wealth identity on those instruments' prices, "
+                               "the hedge computed for them, their cost rates and the payoff",
+                               _small_h(c, which), key=f"hedger.compute_{which}:value" + seqs,
+                               detail={"impl": enc_rat(v), "wealth": enc_rat(exp), "cost": enc_rat(cost), "round": rnd,
+                                       "hedge": enc_rat(un), "prices": enc_rat(sp)})
                   elif v != exp and dflt:
                       ctx.fail(f"Hedger.compute_{which}(derivative) with the default hedge (hedge=None) differs from the wealth identity on the prices of ALL "
                                "underliers of the derivative, the hedge it computes, the underliers' own cost rates and the payoff",
@@ -748,6 +907,11 @@ def check(ctx):
                   ctx.fail(f"Hedger.compute_{which}(derivative) with the default hedge (hedge=None: ALL underliers of the derivative) raises although the module returns "
                            "one position per underlier", _small_h(c, which), key=f"hedger.compute_{which}:error" + dflt,
                            detail={"error": v, "round": rnd, "hedge_shape": [len(un), len(un[0]), len(un[0][0])], "underliers": H})
+              elif seqs:
+                  # the list of the same instruments has a hedge with one position per instrument (computed above): the identity is defined
+                  ctx.fail(f"Hedger.compute_{which} raises when the hedging instruments are handed over as a {c['seq']} (a sequence of instruments is only measured, "
+                           "indexed and iterated: it is the same hedge as the list of them)", _small_h(c, which),
+                           key=f"hedger.compute_{which}:error" + seqs, detail={"error": v, "round": rnd, "instruments": H})
               else:
                   ctx.fail(f"Hedger.compute_{which} raises on a well-formed market (one position per hedging instrument)", _small_h(c, which),
                            key=f"hedger.compute_{which}:error", detail={"error": v, "round": rnd})
@@ -793,6 +957,7 @@ def check(ctx):
                              (st, enc_rat(v) if st == "ok" else v), (rm[0], enc_rat(rm[1]) if rm[0] == "ok" else rm[1]),
                              note=("composed model hedgerPL/hedgerPortfolio from the generated data alone; " + note)[:700])
     nondyadic_cost_rates(ctx, torch, g)
+    hedge_sequence_entry_points(ctx, torch, g)
     return ctx.finish(
         rule="functional: random (N,H,T) shapes with dyadic spot/unit/payoff/cost grids sized so float64/float32 commit no rounding; "
              "non-trivial = well-shaped, some cost rate != 0, non-constant prices, positions of both signs, T>=2. "
@@ -802,6 +967,8 @@ def check(ctx):
              "on injected dyadic buffers; user-defined derivatives with 2-3 underliers (an option on the first asset registering proxy assets; a spread option on "
              "BaseDerivative) and built-in options on one stock hedged with the DEFAULT hedge (hedge=None = all underliers, each with its own cost rate; deterministic corpus of 8 + random), "
              "compute_hedge(default) == compute_hedge(list(underliers)); with primary and listed hedges (cost rates zero / positive / negative / tiny, incl. books whose only frictions are rebates), hedge-then-P&L and P&L-first call orders; "
+             "explicit hedges handed over as a list / tuple / instance of a sub-class of list / user-defined sequence (compute_hedge == that of the list; P&L and portfolio value the identity; deterministic corpus of 8 + random), "
+             "and all entry points taking hedge= (compute_hedge/portfolio/pl/pnl/loss, price, fit) on a simulated market with such a sequence: succeed, the identity, bit for bit the list's result from the same seed; "
              "every hedger scenario and round is also run through the composed model `hedgerPL`/`hedgerPortfolio` (op hedger_pl) from the generated data alone; "
              "non-trivial = hedge moves, some cost rate != 0, exactly representable. distinct = sha1 of the canonical case.")
 
@@ -817,6 +984,8 @@ def _small_h(c, which):
         d["derivative"] = {"user_defined": c["multi"], "underliers": len(c["hedges"]), "registered_by": c["reg"]}
     if c.get("call") == "default":
         d["hedge_argument"] = None
+    elif c.get("seq", "list") != "list":
+        d["hedge_argument"] = c["seq"] + " of the instruments"
     d["hedges"] = [dict(kind=h["kind"], cost=rat_str(h["cost"]), a=rat_str(h["a"]), b=rat_str(h["b"]),
                         spot=enc_rat(h["spot"])) for h in c["hedges"]]
     d["w"] = enc_rat(c["w"])
